@@ -263,9 +263,131 @@ pub fn c09(args: Args) {
     let hooks = Hooks { after_op: &after, at_end: &end, nontrivial: &nt, dyn_check: false, quiesce: true, verify_sig: Some("c09/server-verify") };
     let n = args.tier.pick(200, 6000);
     run_histories(&mut run, &args, 9, n, &prof, &hooks);
+    c09_bounded(&mut run, &args);
     for k in ["op.delete.ok", "op.purge_recycled.ok", "op.purge_tombstones.ok", "op.repl.ok", "histories_with_effective_delete", "supplier_answer.v1", "supplier_answer.no_changes"] {
         let ok = run.acc.get(k) > 0;
         run.require(ok, &format!("{k} never observed"));
     }
     run.finish();
+}
+
+
+/// The bounded model of deletion, trimming and lag, executed on real servers: EVERY sequence (up to a
+/// bounded length) over {delete on A, edit on A, edit on B, age 8 days + purge recycle bin on A / B,
+/// age 8 days + reap tombstones on A / B, replicate A->B, replicate B->A} on two replicas that both
+/// hold one entry. Same oracle as the random part.
+fn c09_bounded(run: &mut Run, args: &Args) {
+    use kvcore::rng::mix;
+    use kvcore::Rng;
+    const SYMS: usize = 9;
+    let maxlen = args.tier.pick(3usize, 4usize);
+    // all sequences of length <= maxlen, plus (quick) all of length maxlen+1 that start with the delete
+    let mut seqs: Vec<Vec<usize>> = Vec::new();
+    for len in 1..=maxlen {
+        let total = SYMS.pow(len as u32);
+        for mut x in 0..total {
+            let mut v = Vec::with_capacity(len);
+            for _ in 0..len {
+                v.push(x % SYMS);
+                x /= SYMS;
+            }
+            seqs.push(v);
+        }
+    }
+    let total = SYMS.pow(maxlen as u32);
+    for mut x in 0..total {
+        let mut v = vec![0usize];
+        for _ in 0..maxlen {
+            v.push(x % SYMS);
+            x /= SYMS;
+        }
+        seqs.push(v);
+    }
+    let seqs = &seqs;
+    let seed = args.seed;
+    kvcore::run::install_panic_hook();
+    run.parallel(args.workers, |wk, n| {
+        let mut acc = Acc::new();
+        let rt = srv::rt();
+        let e = Obj(Kind::Person, 0);
+        let mut i = wk;
+        while i < seqs.len() {
+            let seq = &seqs[i];
+            let res = std::panic::catch_unwind(std::panic::AssertUnwindSafe(|| {
+                rt.block_on(async {
+                    let mut rng = Rng::new(mix(seed, 909, i as u64));
+                    let cfg = WorldCfg { replicas: 2, level: kanidmd_lib::constants::DOMAIN_TGT_LEVEL, unique_names: true, skew: false, file_backed: None };
+                    let mut w = World::new(&cfg, &mut rng).await;
+                    w.apply(Op::Create { r: 0, obj: e, name: 0, bad_spn: false }).await;
+                    w.apply(Op::Repl { from: 0, to: 1 }).await;
+                    let mut f: Vec<Finding> = Vec::new();
+                    let mut n_desc = 0u8;
+                    for s in seq {
+                        let ops: Vec<Op> = match s {
+                            0 => vec![Op::Delete { r: 0, obj: e }],
+                            1 => { n_desc += 1; vec![Op::SetDesc { r: 0, obj: e, val: Some(n_desc % 3) }] }
+                            2 => { n_desc += 1; vec![Op::SetDesc { r: 1, obj: e, val: Some(n_desc % 3) }] }
+                            3 => vec![Op::Advance { r: 0, secs: 8 * DAY, nanos: 0 }, Op::PurgeRecycled { r: 0 }],
+                            4 => vec![Op::Advance { r: 1, secs: 8 * DAY, nanos: 0 }, Op::PurgeRecycled { r: 1 }],
+                            5 => vec![Op::Advance { r: 0, secs: 8 * DAY, nanos: 0 }, Op::PurgeTombstones { r: 0 }],
+                            6 => vec![Op::Advance { r: 1, secs: 8 * DAY, nanos: 0 }, Op::PurgeTombstones { r: 1 }],
+                            7 => vec![Op::Repl { from: 0, to: 1 }],
+                            _ => vec![Op::Repl { from: 1, to: 0 }],
+                        };
+                        for op in ops {
+                            let rec = w.apply(op).await;
+                            acc.count(&format!("bounded.op.{}.{}", rec.op.kind(), if rec.ok { "ok" } else { "err" }));
+                            if let Op::Repl { .. } = rec.op {
+                                acc.count(&format!("bounded.supplier_answer.{}", rec.detail.split([' ', '/']).next().unwrap_or("?")));
+                            }
+                            for (u, was) in &w.resurrected {
+                                f.push((format!("c09/{was}-entry-live-again-on-same-replica"), format!("{u} on replica {} after {:?}", rec.op.target(), rec.op)));
+                            }
+                        }
+                    }
+                    let q = w.quiesce(8).await;
+                    if matches!(q, Quiesce::Reached(_)) {
+                        acc.count("bounded.judged_at_quiescence");
+                        let mut seen = BTreeSet::new();
+                        for r0 in 0..2 {
+                            for u in &w.dead[r0] {
+                                for k in 0..2 {
+                                    if w.dumps[k].entries.get(u).map(srv::is_live).unwrap_or(false) && seen.insert(*u) {
+                                        let held = state(&w.dumps[r0], u);
+                                        f.push((format!("c09/deleted-entry-live-at-quiescence/held-as-{held}"), format!("{u} held as {held} by replica {r0} is live on replica {k}")));
+                                    }
+                                }
+                            }
+                        }
+                    } else {
+                        acc.count(&format!("bounded.not_quiesced.{}", match q { Quiesce::Unwilling => "unwilling", Quiesce::ApplyError(_) => "apply_error", _ => "other" }));
+                    }
+                    acc.eval();
+                    if seq.contains(&0) && seq.iter().any(|s| *s == 7 || *s == 8) {
+                        acc.nontrivial_distinct();
+                    }
+                    let mut sigs = BTreeSet::new();
+                    for (sig, why) in f {
+                        if sigs.insert(sig.clone()) {
+                            acc.violation(&format!("{sig}/replicated"), serde_json::json!({"bounded_sequence": seq, "alphabet": "0 delete@A, 1 edit@A, 2 edit@B, 3 age+purge-recycled@A, 4 same@B, 5 age+reap-tombstones@A, 6 same@B, 7 repl A->B, 8 repl B->A", "why": why, "history_tail": w.history_json(30)}));
+                        }
+                    }
+                })
+            }));
+            if res.is_err() {
+                let (loc, msg) = kvcore::run::take_last_panic().unwrap_or_default();
+                if kvcore::run::panic_in_kanidm(&loc) || loc.contains("/.cargo/registry/") {
+                    acc.count("bounded.cross.panic_outside_harness");
+                    acc.observe("kanidm_debug_assertions_fired", &format!("{loc}: {msg}"));
+                } else {
+                    acc.inconclusive(&format!("harness panic at {loc}: {msg}"));
+                }
+            }
+            i += n;
+        }
+        acc
+    });
+    run.extra("bounded_sequences", serde_json::json!({"executed": seqs.len(), "max_length_exhaustive": maxlen, "plus_all_of_length": maxlen + 1, "starting_with": "delete@A"}));
+    let j = run.acc.get("bounded.judged_at_quiescence") > 0;
+    run.require(j, "no bounded sequence reached quiescence");
 }
